@@ -141,6 +141,7 @@ type Exec struct {
 	track *writeTracker
 
 	symbolicSeen bool
+	provedN      int
 	Extra        map[string]float64 // per-path additions to every model (hints for the native replay)
 	fnStack      []string
 	stubs        map[string]value
@@ -194,6 +195,7 @@ func (ex *Exec) newPath() {
 	ex.track = nil
 	ex.ios = nil
 	ex.Extra = map[string]float64{}
+	ex.provedN = 0
 	ex.stubs = map[string]value{}
 	ex.inStub = map[string]bool{}
 	ex.stubInner = map[string]bool{}
